@@ -183,7 +183,38 @@ func c19Schemas() []c19Schema {
 }
 
 var c19WritePaths = []string{"GenericWriter(raw)", "GenericBuffer->WriteRowGroup", "WriteRows(Deconstruct)", "VariantColumnWriter.WriteValue", "VariantColumnWriter.events(FieldByRef)"}
-var c19ReadPaths = []string{"Read[raw] (convert to unshredded)", "GenericReader(file schema)", "NewReader(Variant schema)"}
+var c19ReadPaths = []string{"Read[raw] (convert to unshredded)", "GenericReader(file schema)", "NewReader(Variant schema)",
+	// the reader's type declares a column the file does not have, before / after the variant
+	"Read[raw+column-added-before] (convert to unshredded)", "Read[raw+column-added-after] (convert to unshredded)"}
+
+type rawVariantRowBefore struct {
+	Added *int64     `parquet:"aaa,optional"`
+	Var   rawVariant `parquet:"var,variant"`
+}
+
+type rawVariantRowAfter struct {
+	Var   rawVariant `parquet:"var,variant"`
+	Added *string    `parquet:"zzz,optional"`
+}
+
+// a VARIANT column below a repeated field
+type repAnyItem struct {
+	Var any `parquet:"var,variant"`
+}
+
+type repAnyRow struct {
+	ID   int32        `parquet:"id"`
+	Vars []repAnyItem `parquet:"vars"`
+}
+
+type repRawItem struct {
+	Var rawVariant `parquet:"var,variant"`
+}
+
+type repRawRow struct {
+	ID   int32        `parquet:"id"`
+	Vars []repRawItem `parquet:"vars"`
+}
 
 // emitEvents streams v into the column writer with the event API, using one
 // shared VariantFieldRef per field name.
@@ -307,6 +338,11 @@ func c19Files(x *engine.X) {
 	wp := c19WritePaths[root%len(c19WritePaths)]
 	ci := x.Choose(len(chunks), "chunk")
 	values := chunks[ci]
+	placement := x.Choose(2, "placement")
+	if placement == 1 {
+		c19FilesRepeated(x, sc, wp, ci, values)
+		return
+	}
 	x.Descf("mode=files shred=%s write=%s chunk=%d (%d values)", sc.name, wp, ci, len(values))
 	x.Nontrivial(x.Describe())
 	shape := fmt.Sprintf("shred=%s;write=%s", sc.name, wp)
@@ -421,6 +457,24 @@ func c19Files(x *engine.X) {
 				for _, r := range rr {
 					got = append(got, r.Var)
 				}
+			case "Read[raw+column-added-before] (convert to unshredded)":
+				rr, err := parquet.Read[rawVariantRowBefore](bytes.NewReader(data), int64(len(data)))
+				rerr = err
+				for i, r := range rr {
+					if r.Added != nil && rerr == nil {
+						rerr = fmt.Errorf("row %d: the column the file does not have reads %d, want null", i, *r.Added)
+					}
+					got = append(got, r.Var)
+				}
+			case "Read[raw+column-added-after] (convert to unshredded)":
+				rr, err := parquet.Read[rawVariantRowAfter](bytes.NewReader(data), int64(len(data)))
+				rerr = err
+				for i, r := range rr {
+					if r.Added != nil && rerr == nil {
+						rerr = fmt.Errorf("row %d: the column the file does not have reads %q, want null", i, *r.Added)
+					}
+					got = append(got, r.Var)
+				}
 			case "GenericReader(file schema)":
 				r := parquet.NewGenericReader[rawVariantRow](bytes.NewReader(data), schema)
 				defer r.Close()
@@ -447,24 +501,207 @@ func c19Files(x *engine.X) {
 			}
 		}()
 		sh := shape + ";read=" + strings.SplitN(rp, " ", 2)[0]
+		if !c19Compare(x, sh, rp, values, got, rerr) {
+			return
+		}
+	}
+	x.Outcome("ok")
+}
+
+// c19Compare: the values read back (raw) against the values written.
+func c19Compare(x *engine.X, sh, rp string, values []variant.Value, got []rawVariant, rerr error) bool {
+	{
 		if rerr != nil {
 			x.Failf("read-error", sh, "%s: %v", rp, rerr)
-			return
+			return false
 		}
 		if len(got) != len(values) {
 			x.Failf("row-count", sh, "%s: wrote %d values, read %d", rp, len(values), len(got))
-			return
+			return false
 		}
 		for i, want := range values {
 			dv, err := decodeRaw(got[i])
 			if err != nil {
-				x.Failf("read-error", sh, "%s: row %d (%s): decoding: %v", rp, i, trunc2(fmt.Sprintf("%#v", want.GoValue())), err)
-				return
+				x.Failf("read-error", sh, "%s: value %d (%s): decoding: %v", rp, i, trunc2(fmt.Sprintf("%#v", want.GoValue())), err)
+				return false
 			}
 			if !dv.Equal(want) {
-				x.Failf("value-changed", sh, "%s: row %d read back as %s, written %s", rp, i, trunc2(fmt.Sprintf("%#v", dv.GoValue())), trunc2(fmt.Sprintf("%#v", want.GoValue())))
+				x.Failf("value-changed", sh, "%s: value %d read back as %s, written %s", rp, i, trunc2(fmt.Sprintf("%#v", dv.GoValue())), trunc2(fmt.Sprintf("%#v", want.GoValue())))
+				return false
+			}
+		}
+	}
+	return true
+}
+
+var c19RepWritePaths = map[string]string{
+	"GenericWriter(raw)":                     "GenericWriter.Write",
+	"GenericBuffer->WriteRowGroup":           "GenericBuffer->WriteRowGroup",
+	"WriteRows(Deconstruct)":                 "WriteRows(Deconstruct)",
+	"VariantColumnWriter.WriteValue":         "Writer.Write(&row)",
+	"VariantColumnWriter.events(FieldByRef)": "RowBuffer->WriteRowGroup",
+}
+
+// c19FilesRepeated: the VARIANT column sits below a repeated field; a row holds
+// 0, 1 or 2 values (the column's repetition depth is 1 before any shredded LIST
+// adds its own).
+func c19FilesRepeated(x *engine.X, sc c19Schema, wpTop string, ci int, values []variant.Value) {
+	wp := c19RepWritePaths[wpTop]
+	x.Descf("mode=files placement=repeated shred=%s write=%s chunk=%d (%d values)", sc.name, wp, ci, len(values))
+	x.Nontrivial(x.Describe())
+	shape := fmt.Sprintf("placement=repeated;shred=%s;write=%s", sc.name, wp)
+	variantNode := parquet.Variant()
+	if sc.node != nil {
+		n, err := parquet.ShreddedVariant(sc.node())
+		if err != nil {
+			x.Failf("harness", "schema", "ShreddedVariant(%s): %v", sc.name, err)
+			return
+		}
+		variantNode = n
+	}
+	schema := parquet.NewSchema("table", parquet.Group{"id": parquet.Int(32), "vars": parquet.Repeated(parquet.Group{"var": variantNode})})
+	unshredded := parquet.NewSchema("table", parquet.Group{"id": parquet.Int(32), "vars": parquet.Repeated(parquet.Group{"var": parquet.Variant()})})
+	var rows []repAnyRow
+	var flat []variant.Value
+	var counts []int
+	for i := range values {
+		k := 2
+		switch {
+		case i%7 == 5:
+			k = 0
+		case i%5 == 3:
+			k = 1
+		}
+		r := repAnyRow{ID: int32(i), Vars: []repAnyItem{}}
+		for j := 0; j < k; j++ {
+			v := values[(i+j)%len(values)]
+			r.Vars = append(r.Vars, repAnyItem{Var: encodeRaw(v)})
+			flat = append(flat, v)
+		}
+		counts = append(counts, k)
+		rows = append(rows, r)
+	}
+	var buf bytes.Buffer
+	var werr error
+	func() {
+		defer func() {
+			if r := recover(); r != nil {
+				werr = fmt.Errorf("panic: %v", r)
+			}
+		}()
+		switch wp {
+		case "GenericWriter.Write":
+			w := parquet.NewGenericWriter[repAnyRow](&buf, schema, parquet.PageBufferSize(256))
+			for i := range rows {
+				if _, err := w.Write(rows[i : i+1]); err != nil {
+					werr = err
+					return
+				}
+			}
+			werr = w.Close()
+		case "GenericBuffer->WriteRowGroup", "RowBuffer->WriteRowGroup":
+			var rg parquet.RowGroup
+			if wp == "GenericBuffer->WriteRowGroup" {
+				b := parquet.NewGenericBuffer[repAnyRow](schema)
+				if _, err := b.Write(rows); err != nil {
+					werr = err
+					return
+				}
+				rg = b
+			} else {
+				b := parquet.NewRowBuffer[repAnyRow](schema)
+				if _, err := b.Write(rows); err != nil {
+					werr = err
+					return
+				}
+				rg = b
+			}
+			w := parquet.NewGenericWriter[repAnyRow](&buf, schema)
+			if _, err := w.WriteRowGroup(rg); err != nil {
+				werr = err
 				return
 			}
+			werr = w.Close()
+		case "WriteRows(Deconstruct)":
+			w := parquet.NewGenericWriter[repAnyRow](&buf, schema)
+			var prs []parquet.Row
+			for i := range rows {
+				prs = append(prs, schema.Deconstruct(nil, &rows[i]))
+			}
+			if _, err := w.WriteRows(prs); err != nil {
+				werr = err
+				return
+			}
+			werr = w.Close()
+		case "Writer.Write(&row)":
+			w := parquet.NewWriter(&buf, schema)
+			for i := range rows {
+				if err := w.Write(&rows[i]); err != nil {
+					werr = err
+					return
+				}
+			}
+			werr = w.Close()
+		}
+	}()
+	if werr != nil {
+		x.Failf("write-error", shape, "%v", werr)
+		return
+	}
+	data := buf.Bytes()
+	for _, rp := range []string{"Read[raw] (convert to unshredded)", "GenericReader(file schema)", "GenericReader(unshredded schema)"} {
+		x.AddEvals(1)
+		var got []rawVariant
+		var rerr error
+		take := func(rr []repRawRow) {
+			if len(rr) != len(rows) && rerr == nil {
+				rerr = fmt.Errorf("read %d rows, wrote %d", len(rr), len(rows))
+				return
+			}
+			for i, r := range rr {
+				if (int(r.ID) != i || len(r.Vars) != counts[i]) && rerr == nil {
+					rerr = fmt.Errorf("row %d reads id=%d with %d values, written id=%d with %d values", i, r.ID, len(r.Vars), i, counts[i])
+				}
+				for _, it := range r.Vars {
+					got = append(got, it.Var)
+				}
+			}
+		}
+		func() {
+			defer func() {
+				if r := recover(); r != nil {
+					rerr = fmt.Errorf("panic: %v", r)
+				}
+			}()
+			switch rp {
+			case "Read[raw] (convert to unshredded)":
+				rr, err := parquet.Read[repRawRow](bytes.NewReader(data), int64(len(data)))
+				rerr = err
+				if err == nil {
+					take(rr)
+				}
+			default:
+				rs := schema
+				if rp == "GenericReader(unshredded schema)" {
+					rs = unshredded
+				}
+				r := parquet.NewGenericReader[repRawRow](bytes.NewReader(data), rs)
+				defer r.Close()
+				out := make([]repRawRow, len(rows)+1)
+				n, err := r.Read(out)
+				if err != nil && err != io.EOF {
+					rerr = err
+					return
+				}
+				take(out[:n])
+			}
+		}()
+		sh := shape + ";read=" + strings.SplitN(rp, " ", 2)[0]
+		if rp == "GenericReader(unshredded schema)" {
+			sh = shape + ";read=GenericReader(unshredded)"
+		}
+		if !c19Compare(x, sh, rp, flat, got, rerr) {
+			return
 		}
 	}
 	x.Outcome("ok")
